@@ -35,7 +35,6 @@ V_ASSUMPTIONS = {
         "R6: format!(..) -> opaque String, StdError::generic_err -> opaque constructor (error text not modelled)",
         "R7: CosmosMsg, SubMsg, ReplyOn, Response, Empty are skeletons copied mechanically from the cosmwasm-std source cargo resolves for /repo (attributes stripped, cfg resolved for the feature set of the run); payload types (WasmMsg, BankMsg, StakingMsg, DistributionMsg, IbcMsg, GovMsg, AnyMsg, Binary, Event, Attribute) are opaque — sound because the code only moves them",
         "R8: Response::{new, add_submessages, add_events, add_attributes} are external_body with assumed contracts (empty; append to that field, frame on the others) — cosmwasm-std's bodies are trusted",
-        "the generator's wiring of the bridged dispatch arm (types/interfaces.rs:114-137) is NOT covered: CBMC timed out on it (DESIGN.md §4)",
         "Verus 0.2026.09.13 and Z3 are trusted",
     ],
 }
@@ -82,8 +81,11 @@ def c11(prop, tier, seed):
         obs, infos = run_v_units(prop, ["into_response.staking", "into_response.staking+stargate+cosmwasm_2_0"])
     except Undecided as u:
         obs, infos = bounded_standin(prop, str(u), [("into_response.native", "replay_c11", []), ("into_response.native.stargate", "replay_c11", ["stargate", "cosmwasm_2_0"])])
-    return dict(obs=obs, infos=infos, level="proof", assumptions=list(V_ASSUMPTIONS["into_response"]),
-                explanation="C11 (conversion functions): Verus proves on the bodies of IntoMsg::into_msg and IntoResponse::into_response extracted from sylvia/src/into_response.rs, for all responses (any number/kind of sub-messages, attributes, events, data) and for two feature sets: Ok => every sub-message converted with id/payload/gas_limit/reply_on/content intact and in order, events/attributes/data equal; Err => some message is Custom; no Custom => Ok.")
+    o2, i2 = K.run_property(prop, tier, ["g_custom"])
+    obs.extend(o2); infos.extend(i2)
+    return dict(obs=obs, infos=infos, level="proof", assumptions=list(V_ASSUMPTIONS["into_response"]) + ["generator half (bridged dispatch arm) is bounded over programs: one fixture contract (fx_custom) with an Empty-typed interface attached `: custom(msg, query)` next to a native custom-typed interface; " + G_ASSUMPTIONS[1], G_ASSUMPTIONS[2], G_ASSUMPTIONS[3]],
+                fixtures=["fx_custom"],
+                explanation="C11 generator half (bounded, fixture fx_custom): Kani discharges that the bridged exec/sudo/query handlers see the caller's storage, api, env and sender, that exactly the bridged handler runs, and that its Ok response reaches the caller through into_response with the data intact. C11 (conversion functions): Verus proves on the bodies of IntoMsg::into_msg and IntoResponse::into_response extracted from sylvia/src/into_response.rs, for all responses (any number/kind of sub-messages, attributes, events, data) and for two feature sets: Ok => every sub-message converted with id/payload/gas_limit/reply_on/content intact and in order, events/attributes/data equal; Err => some message is Custom; no Custom => Ok.")
 
 
 G_ASSUMPTIONS = [
@@ -122,6 +124,16 @@ def c05(prop, tier, seed):
     return r
 
 
+def c14(prop, tier, seed):
+    f = g_prop("C14 on permuted twins: every fixture with reorderable parts (methods reversed; interface attributes reversed; success/error reply methods in both orders) is compiled and must satisfy the SAME contracts as the original (dispatch, routing, wire shape, lists, reply routing, sub-message builders); reply ids are read from the generated constants. Both declaration orders of a success-with-data + error pair under one handler name must be accepted.",
+               uncovered=["permutations other than reversal", "override attribute order"])
+    r = f(prop, "thorough" if tier == "thorough" else "quick", seed)
+    rej = [o for o in r["obs"] if o.status == "refuted" and o.name.endswith(".T.accepted") and "fx_reply_ord_" in o.name]
+    if len(set(o.name for o in rej)) >= 2:
+        raise Undecided("both declaration orders of the order-twin fixture are rejected: not an order dependence (tree does not build the fixture at all)")
+    return r
+
+
 REGISTRY = {
     "C01": g_prop("C01 on the fixture corpus: for every generated message variant, the recording Serializer sees variant = method name, fields = argument names in order, values = arguments (all values symbolic); constructors build the literal; {own name: own fields} decodes back to an equal message; for every ASCII key up to 12 bytes a message type decodes to variant i only if key = name_i (wildcard-free match = exact variant set).",
                   uncovered=["struct->JSON text (serde_json)", "argument types beyond integer scalars"]),
@@ -134,6 +146,17 @@ REGISTRY = {
     "C05": c05, "C11": c11,
     "C06": g_prop("C06: (KT) the override-kind table and the sv::msg kind table, lifted verbatim from sylvia-derive, are proved equal on every ASCII string up to 24 bytes, and the entry-point / message / accessor names are the documented ones and injective on kinds; (T) on the fixture corpus every non-overridden entry point exists with the documented signature taking the kind's wrapper type; (G) each emitted entry point builds the contract with new(), dispatches the message with the given deps/env/info and returns the dispatch outcome.",
                   uncovered=["absence of an overridden entry point is not expressible as an obligation on compiled code", "override subsets other than those in the fixture corpus"], kernels=True),
+    "C07": g_prop("C07 on the reply fixtures (success-only, error-only, both via two methods in both declaration orders, always, one method bound to two names, typed-payload names): for each declared handler name (concrete id) and each outcome, for all gas_used / events (0-2) / data / raw payload bytes / error text (0-2 bytes): the method declared for that outcome (or always) runs with gas_used in the context, events and msg_responses for success, the error text or the full result as declared, the raw payload byte for byte; an outcome with no method is answered as if no reply had been requested (events and data passed through / that error); every id beyond the table is an error and no handler runs. KT: ReplyOn::new and ReplyOn::excludes.",
+                  uncovered=["typed (JSON) payloads at dispatch: from_json is out of CBMC's reach", "msg_responses other than empty"], kernels=True),
+    "C08": g_prop("C08 on the reply fixtures: for each handler name and each receiver (SubMsg, WasmMsg, CosmosMsg) the generated builder stamps <NAME>_REPLY_ID, requests a reply for exactly the outcomes that have a method (both or always => Always), keeps the wrapped message and, for an existing SubMsg, its gas limit (all Option<u64>), and carries a raw payload byte for byte; reply ids are pairwise distinct (const assertion).",
+                  uncovered=["typed payload JSON round trip (needs a parser)"]),
+    "C09": g_prop("C09 on fx_data (one success handler per data mode + one without data parameter): data absent x 7 modes (optional => None, mandatory => error and handler not invoked, no parameter => handler runs); raw modes with 2 symbolic bytes passed through; decoded modes with a non-envelope byte => error, handler not invoked.",
+                  uncovered=["well-formed envelopes and JSON-level corruption reach cosmwasm_std::from_json (CBMC timeout)"]),
+    "C14": c14,
+    "C15": g_prop("C15 on fx_generic (contract Gen<A,B,R,U>: A used directly in exec, B only inside Vec<Option<B>> in sudo with a bound that also mentions the unused U, R only as a query response, U unused; interface with associated types P, Q): type-level obligations show each message type is nameable with exactly the used parameters and buildable/encodable with a type that satisfies only the kept bounds; Kani shows dispatch and wire shape on two instantiations equal the non-generic case.",
+                  features=["g_generic"], uncovered=["generic programs outside the fixture", "two where-predicates on the same parameter do not compile on the pinned tree (DESIGN.md §5 item 7) and are not used"]),
+    "C17": g_prop("C17 on fx_attr: sv::msg_attr(exec|instantiate, derive(PartialOrd)) yields PartialOrd on exactly ExecMsg and InstantiateMsg and on no other generated type (const assertions decided by rustc); sv::attr(serde(rename)) changes the wire key of that variant only (recording Serializer; the old name is rejected); an argument carrying #[serde(default)] may be absent on the wire and every other argument may not (scripted Deserializer). KT: the msg_attr kind table equals the sv::msg kind table.",
+                  features=["g_attr"], uncovered=["attribute placements outside the fixture"], kernels=True),
     "C10": g_prop("C10: Kani proves on the REAL functions of sylvia/src/types.rs and sylvia/src/builder/instantiate.rs (symbolic scalars, 1-2 byte payloads) that ExecutorBuilder::{new, with_funds, build}, InstantiateBuilder::{new, with_label, with_admin, with_funds, build, build2} and Remote::{new, borrowed, as_ref, executor, update_admin, clear_admin} carry every input to the corresponding output field and leave the others unchanged (label empty when unset); on the fixture corpus the generated Executor methods return a ready builder whose body is the canonical serialisation of the same ExecMsg variant.",
                   uncovered=["querier helpers (smart query round trip needs a JSON parser)", "funds beyond one coin; addresses beyond 2 bytes"]),
     "C20": g_prop("C20: Kani proves on the REAL Remote<T> (sylvia/src/types.rs:370-460) for T in {contract, dyn Interface<Error=E>, ()} and both constructors: it serialises (serde data model) as a struct named Remote with exactly one non-skipped member `addr` whose str has the pointer and length of the address (so every byte is the address's, for all addresses up to 6 bytes, without a content loop); a scripted {addr: s} decodes to a handle with as_ref() == s; schema_name() is `Remote` for every T; the three trait impls exist for an unsized T with no impls.",
